@@ -74,9 +74,18 @@ def check_tree(sim, box, where, res, spec, grav=False, want_dump=False):
     errs = L.wfb_py(box, part, N, forest)
     if errs:
         raise Fail("tree:wf", "tree not well formed %s: %s" % (where, errs[0]), {"errors": errs[:5]})
-    # particles' back pointers
-    for i in range(N):
-        pass
+    # particles' back pointers: particles[pt].c is the leaf that holds pt
+    def backp(c):
+        if c is None:
+            return
+        if c["pt"] >= 0 and c["pt"] < N:
+            pc = sim.particles[c["pt"]].c
+            if pc != c["addr"]:
+                raise Fail("tree:back_pointer", "particles[%d].c = %r but the leaf holding it is at %r %s" % (c["pt"], pc, c["addr"], where))
+        for d in c["oct"]:
+            backp(d)
+    for c in forest:
+        backp(c)
     tie = L.on_border(box, part, forest)
     if not tie:
         try:
@@ -189,7 +198,7 @@ def run_tree(spec):
     for i in range(spec["N"]):
         expected.add(add_one())
     cur = {"where": "", "midfail": None, "first_resolve": True, "pairs": []}
-    use_tree = sim.gravity == "tree" or sim.collision == "tree"
+    use_tree = sim.gravity == "tree" or sim.collision in ("tree", "linetree")
     gravtree = sim.gravity == "tree"
     step_no = [0]
 
@@ -435,22 +444,27 @@ def run_boundary(spec):
                 i = 0
                 n = len(arr)
                 nact = nact0
-                # reference removal loop (independent transcription incl. the N_active variant of remove_particle)
+                # reference removal loop: transcription of reb_boundary_check + the keep_sorted=0, no-tree branch of
+                # reb_simulation_remove_particle as of /repo 95ccee5: ONE move (last particle -> removed slot) whatever N_active is,
+                # then N_active is clamped to N; N==1 shortcut: N=0 and N_active-- if index<N_active.
                 while i < n:
                     p = arr[i]
                     if not in_box(box, (p[1], p[2], p[3])):
                         if n == 1:
                             n = 0; arr = []
+                            if i < nact:
+                                nact -= 1
                             break
                         n -= 1
-                        idx = i
-                        if 0 <= idx < nact:
-                            nact -= 1
-                            arr[idx] = arr[nact]; idx = nact
-                        arr[idx] = arr[n]
+                        arr[i] = arr[n]
                         arr = arr[:n]
+                        if nact > n:
+                            nact = n
                         continue
                     i += 1
+                if sim.N_active != nact:
+                    raise Fail("boundary:open_nactive", "open boundary step %d: N_active %d -> %d, removal loop gives %d (N %d -> %d)"
+                               % (step, nact0, sim.N_active, nact, len(un), sim.N))
                 exp_ids = [s[0] for s in arr]
                 got_ids = [s[0] for s in wr]
                 inb = sorted(s[0] for s in un if in_box(box, (s[1], s[2], s[3])))
@@ -459,7 +473,7 @@ def run_boundary(spec):
                 if got_ids != exp_ids:
                     raise Fail("boundary:open_order", "open boundary step %d: survivor order %s, removal loop gives %s" % (step, got_ids, exp_ids))
                 res["stats"]["removed"] += len(un) - len(wr)
-                if len(res["bcases"]) < spec.get("maxcases", 3) and spec.get("N_active", -1) == -1 and len(un) > 0 and len(wr) > 0:
+                if len(res["bcases"]) < spec.get("maxcases", 3) and len(un) > 0 and len(wr) > 0:
                     res["bcases"].append({"kind": "open", "box": [hx(bx), hx(by), hx(bz)],
                                           "in": [[hx(float(s[0])), hx(s[1]), hx(s[2]), hx(s[3])] for s in un],
                                           "out": [hx(v) for s in wr for v in (float(s[0]), s[1], s[2], s[3])]})
@@ -471,6 +485,89 @@ def run_boundary(spec):
         res["fail"] = {"key": "boundary:error", "what": "library raised: %s" % e}
     return res
 
+
+
+# ------------------------------------------------------------------------------------------------ restore histories
+def run_restore(spec):
+    """build, step, restore through copy / file / archive snapshot / pickle, and continue BOTH: the restored simulation must
+    have a well-formed tree over all its particles right away and after every step, and must behave like the never-restored
+    twin (same particles bit for bit, same reported collision pairs)."""
+    import pickle, tempfile
+    rng = random.Random(spec["seed"])
+    res = {"fail": None, "dumps": [], "upd": [], "bcases": [], "stats": {"tree_checks": 0, "shape_checks": 0, "ties": 0, "maxdepth": 0, "cells": 0,
+                                                                         "grav_checks": 0, "steps": 0, "restores": 0, "coll_pairs": 0}}
+    box = L.Box(spec["rs"], *spec["n"])
+    sim = setup(spec)
+    taken = set()
+    for i in range(spec["N"]):
+        p = rand_pos(rng, box, taken); taken.add(p)
+        vel = spec["vel"]
+        sim.add(m=rng.uniform(0.1, 1.0) * spec.get("mscale", 1e-3), x=p[0], y=p[1], z=p[2], vx=rng.gauss(0, vel), vy=rng.gauss(0, vel),
+                vz=rng.gauss(0, vel) * (0.3 if spec["n"][2] == 1 else 1.0), r=spec.get("radius", 0.0) * rng.uniform(0.5, 1.5), hash=i + 1)
+    use_tree = sim.gravity == "tree" or sim.collision in ("tree", "linetree")
+    pairs = {"twin": [], "rest": []}
+
+    def recorder(name):
+        def resolve(simp, col):
+            s = simp.contents
+            pairs[name].append((s.particles[col.p1].hash.value, s.particles[col.p2].hash.value))   # by identity: the array order may differ
+            return 0
+        return resolve
+    if sim.collision != "none":
+        sim.collision_resolve = recorder("twin")
+    tmpd = tempfile.mkdtemp(prefix="c15r_")
+    fn = os.path.join(tmpd, "s.bin")
+    try:
+        for k in range(spec["steps_before"]):
+            sim.step(); res["stats"]["steps"] += 1
+            if spec["method"] == "archive" and k >= spec["steps_before"] - 2:
+                sim.save_to_file(fn)
+        m = spec["method"]
+        if m == "copy":
+            rest = sim.copy()
+        elif m == "file":
+            sim.save_to_file(fn, delete_file=True); rest = rebound.Simulation(fn)
+        elif m == "archive":
+            if spec["steps_before"] == 0:
+                sim.save_to_file(fn)
+            sa = rebound.Simulationarchive(fn); rest = sa[-1]
+        else:
+            rest = pickle.loads(pickle.dumps(sim))
+        res["stats"]["restores"] += 1
+        if rest.collision != "none":
+            rest.collision_resolve = recorder("rest")
+        if rest.N != sim.N:
+            raise Fail("restore:count", "restored simulation (%s) has N=%d, original N=%d" % (m, rest.N, sim.N))
+        if use_tree:
+            check_tree(rest, box, "right after restore by %s (gravity=%s collision=%s)" % (m, spec.get("gravity"), spec.get("collision")), res, spec)
+        for k in range(spec["steps_after"]):
+            pairs["twin"] = []; pairs["rest"] = []
+            sim.step(); rest.step(); res["stats"]["steps"] += 1
+            if use_tree:
+                clib.reb_simulation_update_tree(ctypes.byref(sim)); clib.reb_simulation_update_tree(ctypes.byref(rest))
+                if not any(math.isnan(rest.particles[i].y) for i in range(rest.N)):
+                    check_tree(rest, box, "restored by %s, step %d after restore (gravity=%s collision=%s)" % (m, k, spec.get("gravity"), spec.get("collision")), res, spec)
+            # the particle ORDER may legitimately differ (the in-place update of the twin starts from the tree of the mid-step
+            # positions, the restored one from a freshly built tree): compare by identity
+            a = sorted(state(sim)); b = sorted(state(rest))
+            if len(a) != len(b):
+                raise Fail("restore:diverges", "N differs %d steps after restore by %s: twin %d, restored %d" % (k + 1, m, len(a), len(b)))
+            for x, y in zip(a, b):
+                if any(not (u_ == v_ or (u_ != u_ and v_ != v_)) for u_, v_ in zip(x, y)):
+                    raise Fail("restore:diverges", "particle id %d differs %d steps after restore by %s: twin %r, restored %r (gravity=%s collision=%s)"
+                               % (x[0], k + 1, m, x[1:7], y[1:7], spec.get("gravity"), spec.get("collision")))
+            res["stats"]["coll_pairs"] += len(pairs["twin"])
+            if sorted(pairs["twin"]) != sorted(pairs["rest"]):
+                raise Fail("restore:collisions", "collision search (%s) %d steps after restore by %s reports %s, the never-restored twin %s"
+                           % (spec.get("collision"), k + 1, m, sorted(pairs["rest"])[:6], sorted(pairs["twin"])[:6]))
+    except Fail as f:
+        res["fail"] = {"key": f.key, "what": f.what, "detail": f.detail, "step": res["stats"]["steps"]}
+    except RuntimeError as e:
+        res["fail"] = {"key": "restore:error", "what": "library raised: %s" % e}
+    finally:
+        import shutil
+        shutil.rmtree(tmpd, ignore_errors=True)
+    return res
 
 # ------------------------------------------------------------------------------------------------ corner cases (explicit coordinates)
 def run_corner(spec):
@@ -529,5 +626,5 @@ def run_corner(spec):
 
 if __name__ == "__main__":
     spec = json.load(sys.stdin)
-    r = {"tree": run_tree, "boundary": run_boundary, "corner": run_corner}[spec["kind"]](spec)
+    r = {"tree": run_tree, "boundary": run_boundary, "corner": run_corner, "restore": run_restore}[spec["kind"]](spec)
     sys.stdout.write("\nC15RESULT " + json.dumps(r) + "\n")
